@@ -16,6 +16,8 @@ import subprocess
 import sys
 
 ROOT = "/verif"
+BASE = os.environ.get("MUT_BASE", "/tmp/mut")
+TAG = os.environ.get("MUT_TAG", "")
 ENV = dict(os.environ, CARGO_NET_OFFLINE="true")
 
 
@@ -25,8 +27,8 @@ def sh(cmd, cwd=None, timeout=1800):
 
 
 def confirm(pid, mut):
-    wt = f"/tmp/mut/{pid}"
-    out = f"/tmp/mut/{pid}-out/{mut}"
+    wt = f"{BASE}/{pid}"
+    out = f"{BASE}/{pid}-out/{mut}"
     patch = f"{out}/patch.diff"
     demo = f"{out}/demo.rs"
     name = f"demo_{pid}_{mut}"
@@ -54,7 +56,7 @@ def confirm(pid, mut):
 
 
 def run_checks(pid, mut, props):
-    patch = f"/tmp/mut/{pid}-out/{mut}/patch.diff"
+    patch = f"{BASE}/{pid}-out/{mut}/patch.diff"
     assert sh("git status --porcelain", cwd="/repo")[1].strip() == "", "/repo not clean"
     rc, o = sh(f"git apply {patch}", cwd="/repo")
     res = {}
@@ -78,10 +80,10 @@ def run_checks(pid, mut, props):
 def main():
     todo = sys.argv[1:]
     if not todo:
-        for d in sorted(glob.glob("/tmp/mut/C*-out/mut*")):
-            pid = d.split("/")[3][:3]
+        for d in sorted(glob.glob(BASE + "/C*-out/mut*")):
+            pid = d.split("/")[-2][:3]
             mut = os.path.basename(d)
-            if os.path.exists(f"{d}/patch.diff") and not os.path.exists(f"{ROOT}/seeded/{pid}-{mut}/meta.json"):
+            if os.path.exists(f"{d}/patch.diff") and not os.path.exists(f"{ROOT}/seeded/{pid}-{TAG}{mut}/meta.json"):
                 todo.append(f"{pid}-{mut}")
     for t in todo:
         pid, mut = t.split("-")
@@ -93,11 +95,11 @@ def main():
         res = run_checks(pid, mut, [pid])
         caught = bool(res.get(pid, {}).get("violation"))
         print(f"   check {pid}: {res.get(pid, {}).get('violation')}")
-        dst = f"{ROOT}/seeded/{pid}-{mut}"
+        dst = f"{ROOT}/seeded/{pid}-{TAG}{mut}"
         os.makedirs(dst, exist_ok=True)
-        shutil.copy(f"/tmp/mut/{pid}-out/{mut}/patch.diff", dst)
-        shutil.copy(f"/tmp/mut/{pid}-out/{mut}/demo.rs", dst)
-        meta = json.load(open(f"/tmp/mut/{pid}-out/{mut}/meta.json"))
+        shutil.copy(f"{BASE}/{pid}-out/{mut}/patch.diff", dst)
+        shutil.copy(f"{BASE}/{pid}-out/{mut}/demo.rs", dst)
+        meta = json.load(open(f"{BASE}/{pid}-out/{mut}/meta.json"))
         meta["confirmed_by_me"] = log
         meta["checks"] = res
         meta["caught"] = caught
